@@ -81,7 +81,7 @@ def check(w, tier, t0):
     rc = verdict.finish(reproduce)
     cov = {"states": states, "transitions": trans, "traces_validated_against_impl": len(events), "evaluations": len(events),
            "chains_enumerated": nchains, "exhaustive": True,
-           "rule": "one evaluation = one chain of builder calls (Select / Distinct / Omit / Where / Order / Limit / Offset / Group / Having / locking, 30 call forms) finished by Find / Take / First / Last / Count in DryRun on the generic dialector; SQL text and bound values must equal the specification's rendering: every chain of length <= %d of the TLC state graph x 5 finishers + %d random chains of length 3..10" % (maxlen, nrand)}
+           "rule": "one evaluation = one chain of builder calls (Select / Distinct / Omit / Where / Order / Limit / Offset / Group / Having / locking, 30 call forms) finished by Find / Take / First / Last / Count / Delete in DryRun on the generic dialector; SQL text and bound values must equal the specification's rendering: every chain of length <= %d of the TLC state graph x 6 finishers + %d random chains of length 3..10" % (maxlen, nrand)}
     os.makedirs(os.path.join(lib.VERIF, "evidence_extra"), exist_ok=True)
     json.dump({"property_id": PROP, "tier": tier, "seed": sd, "level": "model_checking", "coverage": cov,
                "wall_s": round(time.time() - t0, 2), "violations": len(verdict.violations)},
